@@ -197,7 +197,7 @@ D3_SKIP = {
 # one slot of a few kinds for the depth 4-5 single-child spines: (label, slot index)
 SPINE = [
     ("UnaryOp.USub", 0), ("UnaryOp.Not", 0), ("BinOp.Sub", 1), ("BinOp.Mult", 0), ("Compare.Lt", 0),
-    ("BoolOp.Or", 1), ("IfExp", 0), ("IfExp", 1), ("Lambda.noargs", 0), ("Call.func", 0), ("Call.pos", 0),
+    ("BoolOp.Or", 1), ("IfExp", 0), ("IfExp", 1), ("Lambda.noargs", 0), ("Call.func", 0),
     ("Subscript.value", 0), ("Attribute", 0),
 ]
 
@@ -235,6 +235,18 @@ def depth2():
                 yield (k1[0], i, k2[0]), build(k1[0], {i: build(k2[0])})
 
 
+# innermost layer of the depth-3 enumeration: one representative of every printing behaviour
+D3_INNER = [
+    "Name", "Const.int", "Const.str", "Const.inf", "Tuple.empty", "Attribute", "Subscript.value", "Subscript.index", "Slice.full",
+    "Subscript.ext", "Subscript.star", "Call.func", "Call.pos", "Call.kw", "Call.star", "Call.dstar", "Call.genexp", "UnaryOp.USub", "UnaryOp.Not",
+    "UnaryOp.Invert", "BinOp.Add", "BinOp.Sub", "BinOp.Mult", "BinOp.Pow", "BinOp.BitOr", "BinOp.MatMult", "BoolOp.And", "BoolOp.Or",
+    "Compare.Lt", "Compare.In", "Compare.IsNot", "Compare.chain", "IfExp", "Lambda.noargs", "Lambda.pos", "Lambda.default",
+    "Lambda.vararg-kwonly", "Lambda.posonly", "Tuple.1", "Tuple.2a", "List.1", "Set.1", "Dict.key", "Dict.unpack", "List.star", "Tuple.star",
+    "ListComp.elt", "ListComp.if", "SetComp.elt", "GeneratorExp.elt", "DictComp.value", "FString.value", "FString.spec", "FString.text",
+    "NamedExpr",
+]
+
+
 def d3_ops():
     return [k for k in KINDS if k[2] in OPERATOR_FAMILIES and k[3] and k[0] not in D3_SKIP]
 
@@ -245,15 +257,15 @@ def depth3():
         for i in range(len(k1[3])):
             for k2 in ops:
                 for j in range(len(k2[3])):
-                    for k3 in KINDS:
-                        yield (k1[0], i, k2[0], j, k3[0]), build(k1[0], {i: build(k2[0], {j: build(k3[0])})})
+                    for l3 in D3_INNER:
+                        yield (k1[0], i, k2[0], j, l3), build(k1[0], {i: build(k2[0], {j: build(l3)})})
 
 
 def spines(n, alphabet=None):
     import itertools
 
     sp = alphabet or SPINE
-    leaves = ["Name", "Const.int", "BinOp.Add", "IfExp", "Lambda.vararg", "Call.kw"]
+    leaves = ["Name", "BinOp.Add", "IfExp", "Lambda.vararg"]
     for chain in itertools.product(sp, repeat=n):
         for leaf in leaves:
             node = build(leaf)
